@@ -368,7 +368,7 @@ PLAN['C02'] = mk_e2(
     GEN_FUNCS,
     'Bounded symbolic verification of generated deserializers: for each corpus schema and each enumerated instance shape the solver shows valid(S, v) => T_S::deserialize(v) is Ok for all leaf values.')
 PLAN['C03'] = mk_e2(
-    'C03', lambda tier, rng: e2_select('C03', tier, rng, r'_rt_(pt|defaults|withenum|triple|pair|nullable_obj|ints|renamed|nulldef|grid_bool|grid_int|grid_str|grid_str2)_p$|_rt_(pt|defaults|renamed|nulldef|grid_str2)_p0$|_in_|_id_\w+$', 5),
+    'C03', lambda tier, rng: e2_select('C03', tier, rng, r'_rt_(pt|defaults|withenum|triple|pair|nullable_obj|ints|renamed|nulldef|grid_bool|grid_int|grid_str|grid_str2)_p$|_rt_(pt|defaults|renamed|nulldef|grid_str2)_p0$|_rt_(defaults|renamed|grid_str|withenum)_pe$|_in_|_id_\w+$', 5),
     'bounded symbolic execution + SAT (Kani/CBMC) of generated Deserialize -> Serialize -> Deserialize over symbolic valid instances',
     'bounded symbolic verification (Kani/CBMC) of the round trip through generated code for a stated corpus: declared members are kept with equal values, only null/empty optional members are dropped, only schema defaults are added, and serializing the defaults-filled instance again reproduces the same document',
     GEN_FUNCS,
@@ -387,6 +387,13 @@ PLAN['C14'] = mk_e2(
     GEN_FUNCS + ['typify_impl::TypeSpaceSettings::{with_struct_builder, with_derive, with_map_type, with_patch}'],
     'Bounded symbolic two-program equivalence: the same symbolic instance is fed to the type generated under default settings and under another setting; accept/reject and the serialized document must agree.',
     extra_outside=['replace / convert settings (the affected type changes by design)', 'all syntactic obligations of C14'])
+PLAN['C04'] = mk_e2(
+    'C04', lambda tier, rng: e2_select('C04', tier, rng, r'_wc_\w+_(root|defs)_p$', 4),
+    'bounded symbolic execution + SAT (Kani/CBMC): origin type (serde derive) and the type generated from its schemars schema exchange one symbolic document, both ingestion routes',
+    'bounded symbolic verification (Kani/CBMC) of wire compatibility for a fixed list of flat origin types (corpus/origin_types.rs: structs with integer/bool/String/Option members, rename and rename_all, serde default, deny_unknown_fields, tuple struct, newtype, unit-variant enum, Box, NonZero): for every value x of T obtained from a schema-shaped symbolic document, the type generated by typify from T\'s schemars schema - through the root route and through the definitions route - accepts ser(x) and writes the same document back (absent == null for Option members), which T reads as x. Data-carrying enum variants under the four tagging modes, nested origin structs, containers and skip_serializing_if on the origin side are outside (measured)',
+    GEN_FUNCS + ['schemars 0.8.22 schema_for! on the origin types (run natively by genner)', 'typify_impl::TypeSpace::add_root_schema (root route)'],
+    'Bounded symbolic exchange between two programs: x = T::deserialize(v) for a symbolic schema-shaped v; wo = T::serialize(x); T\'::deserialize(wo) must be Ok; T\'::serialize of it must equal wo slot by slot.',
+    extra_outside=['the quantifier over programs is a fixed list of 9 origin types, not generated universes', 'data-carrying enum variants (all four tagging modes), nested origin structs, Vec/map members, skip_serializing_if on the origin side'])
 PLAN['C18'] = mk_e2(
     'C18', lambda tier, rng: e2_select('C18', tier, rng, r'_bd_\w+_(p|p0)$|_bd_(pt_b|defaults_b)_(m0|m1|m2)$', 3),
     'bounded symbolic execution + SAT (Kani/CBMC) of the generated builder module: setter subsets x symbolic values',
